@@ -1,5 +1,6 @@
 use super::runner::{Codec, Property};
 
+pub mod c01;
 pub mod c02;
 
 pub mod c03;
@@ -21,5 +22,5 @@ pub mod c18;
 pub mod c19;
 
 pub fn all<C: Codec>() -> Vec<Property> {
-    vec![c02::property::<C>(), c03::property::<C>(), c04::property::<C>(), c05::property::<C>(), c06::property::<C>(), c07::property::<C>(), c08::property::<C>(), c11::property::<C>(), c12::property::<C>(), c13::property::<C>(), c14::property::<C>(), c15::property::<C>(), c16::property::<C>(), c17::property::<C>(), c18::property::<C>(), c19::property::<C>()]
+    vec![c01::property::<C>(), c02::property::<C>(), c03::property::<C>(), c04::property::<C>(), c05::property::<C>(), c06::property::<C>(), c07::property::<C>(), c08::property::<C>(), c11::property::<C>(), c12::property::<C>(), c13::property::<C>(), c14::property::<C>(), c15::property::<C>(), c16::property::<C>(), c17::property::<C>(), c18::property::<C>(), c19::property::<C>()]
 }
